@@ -107,6 +107,12 @@ func (c *Ctx) RunChildren(name string, jobs []any, par int, perJob time.Duration
 				b, _ := json.Marshal(jobs[i])
 				out, status := ch.do(b, perJob)
 				res[i] = ChildResult{Index: i, Out: out}
+				if status == "" && wantsRestart(out) {
+					// the child asked to be replaced (e.g. it leaked a busy goroutine)
+					ch.kill()
+					ch = nil
+					continue
+				}
 				if status != "" {
 					res[i].Crashed = status == "crash"
 					res[i].Timeout = status == "timeout"
@@ -174,7 +180,7 @@ func (p *childProc) kill() {
 	go func() { p.cmd.Wait(); close(done) }()
 	select {
 	case <-done:
-	case <-time.After(200 * time.Millisecond):
+	case <-time.After(50 * time.Millisecond):
 		p.cmd.Process.Kill()
 		<-done
 	}
@@ -212,6 +218,18 @@ func (p *childProc) do(job []byte, timeout time.Duration) (json.RawMessage, stri
 		p.cmd.Process.Kill()
 		return nil, "timeout"
 	}
+}
+
+// wantsRestart reports whether a child result carries "_restart": true.
+func wantsRestart(out json.RawMessage) bool {
+	var r struct {
+		Restart bool `json:"_restart"`
+	}
+	if len(out) == 0 || out[0] != '{' {
+		return false
+	}
+	_ = json.Unmarshal(out, &r)
+	return r.Restart
 }
 
 // Describe is a helper for error texts.
